@@ -52,6 +52,7 @@ func init() {
 			}
 			checkApply(c, p, R, "C17.R1", "C17.R1", map[string]bool{"R1": true})
 			checkApply(c, p, R, "C17.R3", "C17.R3", map[string]bool{"R3": true})
+			checkFieldNeverReplaced(c, p, "C17.R3", PkgBus, "EventBus", R.BusUpReg, "the upcast error handler (and everything else configured on the registry) lives on that object, so after the replacement failing upcasts are no longer reported")
 			checkApply(c, p, R, "C17.R4", "C17.R4", map[string]bool{"R4": true})
 			checkUpcastCallers(c, p, R, "C17.R2")
 			checkStoredEventsNotRewritten(c, p, "C17.R2")
